@@ -301,6 +301,8 @@ fn gen_c14(tier: &str, r: &Rng, o: &mut Out<'_>) {
         if r.chance(1, 5) { let l = r.below(b.len() as u64 + 1) as usize; b.truncate(l); }
         o.d(&format!("pes {}", hex(&b)));
     }
+    // PES headers as the demultiplexer offers them (through Packet::payload and PesPacketFilter)
+    mixed_scenarios(tier, r, o, "C14");
     o.meta("exhaustive", "256 stream ids; 256 flag bytes x header_data_length around implied size x buffer cuts; 256 trick-mode bytes; 256 first bytes");
 }
 
@@ -1627,10 +1629,45 @@ fn gen_c04_after_valid(tier: &str, r: &Rng, o: &mut Out<'_>) {
     }
 }
 
+/// runs of SEVERAL different damaged sections (each with its own version, so none is dropped as a
+/// duplicate), with or without a valid table before / between them: no damaged one may be applied
+fn gen_c04_runs_of_bad(tier: &str, r: &Rng, o: &mut Out<'_>) {
+    let nt = if tier == "thorough" { 3_000 } else { 200 };
+    for t in 0..nt {
+        let (progs, pat) = base_tables(r);
+        let target_pat = t % 2 == 0;
+        let sec = if target_pat { pat.clone() } else { pmt_of(&progs[0]) };
+        let pid = if target_pat { 0 } else { progs[0].pmt_pid };
+        let mut m = Mux::new(r);
+        let mut all = vec![];
+        if !target_pat { all.extend(m.section(0, &pat, &simple_plan(pat.len()))); }
+        if t % 3 == 0 { all.extend(m.section(pid, &sec, &plan_for(r, &sec))); }
+        let v0 = (sec[5] >> 1) & 31;
+        for k in 0..(2 + r.below(4)) {
+            let mut bad = sec[..sec.len() - 4].to_vec();
+            let v = (v0 + 1 + k as u8) & 31;
+            bad[5] = (bad[5] & 0xc1) | (v << 1);
+            // change the body too, then append a WRONG checksum (valid one with a few bits flipped)
+            if bad.len() > 9 && r.chance(1, 2) { let i = 8 + r.below((bad.len() - 8) as u64) as usize; bad[i] ^= 1 << r.below(8); }
+            let mut bad = with_crc(bad);
+            let n = bad.len();
+            for _ in 0..(1 + r.below(3)) { let b = r.below(32) as usize; bad[n - 4 + b / 8] ^= 0x80 >> (b % 8); }
+            if crc32(&bad) == 0 { continue; }
+            all.extend(m.section(pid, &bad, &plan_for(r, &bad)));
+            if t % 5 == 4 && k == 1 { all.extend(m.section(pid, &sec, &plan_for(r, &sec))); }
+        }
+        let pp: Vec<u16> = progs.iter().flat_map(|p| p.streams.iter().map(|s| s.1).chain(std::iter::once(p.pmt_pid))).collect();
+        all.extend(probes(&mut m, &pp));
+        emit(o, true, "b0t0", &rand_pushes(r, &all));
+    }
+}
+
 fn gen_c04(tier: &str, r: &Rng, o: &mut Out<'_>) {
     gen_crc_cases(tier, r, o);
     gen_c04_gate(tier, r, o);
     gen_c04_after_valid(tier, r, o);
+    gen_c04_runs_of_bad(tier, r, o);
+    mixed_scenarios(tier, r, o, "C04");
     o.meta("exhaustive", "all 256 one-byte CRC inputs (= every table row); every single-bit corruption of the generated tables");
 }
 
